@@ -11,6 +11,8 @@ pub struct ScenarioStats {
 	pub blocks_delivered: u64,
 	pub state_comparisons: u64,
 	pub compaction_moved_tail: bool,
+	/// `Chain::compact` returned this error (nothing may have changed)
+	pub compaction_declined: Option<String>,
 	pub pairs_spent: usize,
 	pub depth: usize,
 }
@@ -62,16 +64,39 @@ pub fn compaction_reorg_scenario(seed: u64, depth: usize, dir: &str) -> Result<S
 /// compaction (the header chain's head is then on another fork than the body head while the node compacts). The
 /// trunk is long enough for an effective compaction under the chain type in force (horizon + 62 blocks).
 pub fn compaction_reorg_scenario_ex(seed: u64, depth: usize, dir: &str, headers_first: bool) -> Result<ScenarioStats, ScenarioFailure> {
+	compaction_reorg_scenario_opts(seed, depth, dir, headers_first, None)
+}
+
+/// As `compaction_reorg_scenario_ex`; with `pairs_created_at = Some(d)` the sibling pairs the spender spends are not
+/// old outputs but outputs created `d` blocks relative to the block that will be the compaction horizon
+/// (d = 0: in the horizon block itself, -1 / +1: one block below / above it); requires depth <= horizon.
+pub fn compaction_reorg_scenario_opts(seed: u64, depth: usize, dir: &str, headers_first: bool, pairs_created_at: Option<i64>) -> Result<ScenarioStats, ScenarioFailure> {
 	let mut prng = Prng::new(seed ^ 0x5CE7A);
 	let mut h = Hist::new(seed, false);
-	let n_trunk = (grin_core::global::cut_through_horizon() as u64 + 62).max(82) + prng.below(6);
+	let horizon = grin_core::global::cut_through_horizon() as u64;
+	let n_trunk = (horizon + 62).max(82) + prng.below(6);
+	// the block that is the horizon when the node compacts at the head of the spender branch
+	let special_height: Option<u64> = pairs_created_at.map(|d| ((n_trunk + depth as u64 - horizon) as i64 + d).max(11) as u64).filter(|x| *x <= n_trunk);
 	let mut tip = h.genesis.hash();
 	for i in 1..=n_trunk {
+		if Some(i) == special_height {
+			// a block creating 1 + 4 outputs: five consecutive leaves hold at least one aligned sibling pair of plain outputs
+			let coin = h.spendable(&tip).into_iter().find(|c| c.value > 50_000_000);
+			match coin {
+				Some(c) => {
+					let tx = h.spend_tx(&[c], 4, None);
+					let gb = h.add_block(&tip, &[tx], "honest", vec!["creates_sibling_pairs_at_the_horizon".to_string()]);
+					tip = gb.hash;
+					continue;
+				}
+				None => {}
+			}
+		}
 		let gb = h.honest_block(&tip, if i > 10 && i % 7 == 0 { 1000 } else { 0 });
 		tip = gb.hash;
 	}
 	let replay = json!({"scenario": "compact_at_head_above_a_spender_of_sibling_pairs_then_reorg", "seed": seed, "trunk": n_trunk, "depth": depth,
-		"headers_of_the_winning_fork_first": headers_first, "chain_type": format!("{:?}", grin_core::global::get_chain_type())});
+		"headers_of_the_winning_fork_first": headers_first, "pairs_created_relative_to_the_horizon_block": pairs_created_at, "chain_type": format!("{:?}", grin_core::global::get_chain_type())});
 	let fail = |clause: &str, what: String| -> ScenarioFailure { (clause.to_string(), what, replay.clone()) };
 	let pairs: Vec<(Coin, Coin)> = {
 		let st = h.state(&tip);
@@ -79,7 +104,11 @@ pub fn compaction_reorg_scenario_ex(seed: u64, depth: usize, dir: &str, headers_
 		let mut k = 0usize;
 		while 2 * k + 1 < st.outs.len() {
 			let (a, b) = (&st.outs[2 * k], &st.outs[2 * k + 1]);
-			if a.height <= 40 && b.height <= 40 && st.utxo.contains_key(&a.commit) && st.utxo.contains_key(&b.commit) {
+			let wanted = match special_height {
+				Some(sh) => a.height == sh && b.height == sh && a.features == grin_core::core::OutputFeatures::Plain && b.features == grin_core::core::OutputFeatures::Plain,
+				None => a.height <= 40 && b.height <= 40,
+			};
+			if wanted && st.utxo.contains_key(&a.commit) && st.utxo.contains_key(&b.commit) {
 				if let (Some(ca), Some(cb)) = (h.coins.get(&a.commit.0.to_vec()), h.coins.get(&b.commit.0.to_vec())) {
 					v.push((ca.clone(), cb.clone()));
 				}
@@ -119,6 +148,7 @@ pub fn compaction_reorg_scenario_ex(seed: u64, depth: usize, dir: &str, headers_
 		blocks_delivered: 0,
 		state_comparisons: 0,
 		compaction_moved_tail: false,
+		compaction_declined: None,
 		pairs_spent: n_pairs,
 		depth,
 	};
@@ -172,7 +202,11 @@ pub fn compaction_reorg_scenario_ex(seed: u64, depth: usize, dir: &str, headers_
 	{
 		let c = chain.as_ref().unwrap();
 		let tail_before = c.tail().ok().map(|t| t.height);
-		c.compact().map_err(|e| fail("compact_failed", format!("{:?}", e)))?;
+		// a compaction the node declines (Err) is not a verdict by itself — the statement is about what a
+		// compaction that happens may change — but the state must be the same afterwards in either case
+		if let Err(e) = c.compact() {
+			stats.compaction_declined = Some(format!("{:?}", e));
+		}
 		stats.compaction_moved_tail = c.tail().ok().map(|t| t.height) != tail_before;
 		compare(c, &mut h, "after_compact", &mut stats)?;
 	}
